@@ -39,7 +39,14 @@ def strip_sections(toml: str) -> str:
     return "\n".join(out) + "\n"
 
 
-def build(dst: str, models=(), real_blake2=False, cfgs=()):
+# overlay variant "s": core.rs and everything it drives compiled against the storage MODEL
+# (models/storage_model.rs in place of src/storage/mod.rs) and the async-broadcast MODEL
+S_CHILD_MODS = {
+    "core.rs": "s_core.rs",
+}
+
+
+def build(dst: str, models=(), real_blake2=False, cfgs=(), variant="model"):
     """Create the overlay at dst from REPO's working tree. Returns dst."""
     if os.path.exists(dst):
         shutil.rmtree(dst)
@@ -72,8 +79,33 @@ def build(dst: str, models=(), real_blake2=False, cfgs=()):
     s += '\n#[cfg(kani)]\n#[path = "%s/mod.rs"]\nmod verif;\n' % hdir
     open(lib, "w").write(s)
 
+    # --- variant "s": the storage layer (environment of core.rs) is replaced by its model
+    child_mods = dict(CHILD_MODS)
+    extra_children = {}
+    if variant == "s":
+        if not os.path.exists(os.path.join(dst, "src/storage/mod.rs")):
+            raise SystemExit("overlay: /repo/src/storage/mod.rs is missing")
+        shutil.copy(os.path.join(VERIF, "models/storage_model.rs"), os.path.join(dst, "src/storage/mod.rs"))
+        child_mods.pop("storage/mod.rs", None)
+        # de-async: with a storage layer that never yields, `async fn`/`.await` compute exactly what
+        # the plain call computes.  Kani lowers a coroutine's saved locals into overlapping (union)
+        # variant fields, which defeats CBMC's constant propagation for everything that crosses an
+        # await point (measured: Hypercore::new on empty storage > 9 GB); the mechanical rewrite
+        # `async fn` -> `fn`, `.await` -> `` of the files that only orchestrate storage calls removes
+        # the coroutine and nothing else.  Regenerated from /repo's source on every run.
+        for rel in ("core.rs", "builder.rs"):
+            fp = os.path.join(dst, "src", rel)
+            t = open(fp).read()
+            t2 = re.sub(r"\basync fn\b", "fn", t)
+            t2 = re.sub(r"\.await\b", "", t2)
+            if re.search(r"\basync\b\s*(move\s*)?\{", t2):
+                raise SystemExit("overlay(s): src/%s contains an async block; the de-async rewrite does not cover it" % rel)
+            open(fp, "w").write(t2)
+        extra_children = dict(S_CHILD_MODS)
+        models = list(models) + ["async-broadcast"]
+
     # --- child modules
-    for rel, hf in CHILD_MODS.items():
+    for rel, hf in list(child_mods.items()) + list(extra_children.items()):
         if hf is None:
             continue
         p = os.path.join(dst, "src", rel)
